@@ -5,9 +5,13 @@ package c22
 
 import (
 	"bytes"
+	"encoding/json"
 	"fmt"
+	"os"
+	"runtime/pprof"
 	"sort"
 	"strings"
+	"time"
 
 	sdk "github.com/cosmos/cosmos-sdk/types"
 	speckeeper "github.com/lavanet/lava/v5/x/spec/keeper"
@@ -123,15 +127,17 @@ const unknownName = "VU"
 // ---------------------------------------------------------------- real side
 
 type harness struct {
-	k     speckeeper.Keeper
-	base  sdk.Context
-	denom string
-	maxCU uint64
+	k       speckeeper.Keeper
+	base    sdk.Context
+	scratch sdk.Context
+	denom   string
+	maxCU   uint64
 }
 
 func newHarness() *harness {
 	w := chain.NewWorld()
-	return &harness{k: w.Keepers.Spec, base: w.Ctx, denom: w.TokenDenom(), maxCU: w.Keepers.Spec.MaxCU(w.Ctx)}
+	scratch, _ := w.Ctx.CacheContext()
+	return &harness{k: w.Keepers.Spec, base: w.Ctx, scratch: scratch, denom: w.TokenDenom(), maxCU: w.Keepers.Spec.MaxCU(w.Ctx)}
 }
 
 func (h *harness) cu(c int) uint64 {
@@ -172,8 +178,9 @@ const stepHorizon = 2000
 
 // expandOnce runs the keeper's expansion of root in ctx. It first runs DoExpandSpec (the function the
 // keeper's ExpandSpec delegates to) with a call-counting GetSpec so that non-termination shows up as a
-// horizon overrun instead of a hang, then the keeper's own ExpandSpec.
-func (h *harness) expandOnce(ctx sdk.Context, root string) (out spectypes.Spec, err error, overrun bool, pan string) {
+// horizon overrun instead of a hang, then the keeper's own ExpandSpec (guarded=false: only the latter, used
+// for the repeated runs once the guarded run has terminated).
+func (h *harness) expandOnce(ctx sdk.Context, root string, guarded bool) (out spectypes.Spec, err error, overrun bool, pan string) {
 	defer func() {
 		if r := recover(); r != nil {
 			if _, ok := r.(horizonPanic); ok {
@@ -186,6 +193,10 @@ func (h *harness) expandOnce(ctx sdk.Context, root string) (out spectypes.Spec, 
 	raw, found := h.k.GetSpec(ctx, root)
 	if !found {
 		panic("harness: root spec not stored")
+	}
+	if !guarded {
+		out, err = h.k.ExpandSpec(ctx, raw)
+		return
 	}
 	calls := 0
 	get := func(c sdk.Context, idx string) (spectypes.Spec, bool) {
@@ -349,14 +360,18 @@ func (h *harness) evalCase(defs []specDef, root string, orders [][]int, repeats 
 	var first spectypes.Spec
 	var firstBytes []byte
 	firstOK := false
-	var firstCtx sdk.Context
+	// one scratch branch per harness: every case deletes and re-inserts all four specs (the unknown name is
+	// never stored), so nothing of an earlier case or insertion order survives
+	ctx := h.scratch
 	for oi, ord := range orders {
-		ctx, _ := h.base.CacheContext()
+		for _, n := range names {
+			h.k.RemoveSpec(ctx, n)
+		}
 		for _, i := range ord {
 			h.k.SetSpec(ctx, h.mkSpec(defs[i]))
 		}
 		for r := 0; r < repeats; r++ {
-			out, err, overrun, pan := h.expandOnce(ctx, root)
+			out, err, overrun, pan := h.expandOnce(ctx, root, oi == 0 && r == 0)
 			cnt.permRuns++
 			if overrun {
 				add("no-termination", fmt.Sprintf("expansion did not terminate within %d GetSpec calls", stepHorizon))
@@ -371,7 +386,7 @@ func (h *harness) evalCase(defs []specDef, root string, orders [][]int, repeats 
 				bz, _ = out.Marshal()
 			}
 			if oi == 0 && r == 0 {
-				first, firstBytes, firstOK, firstCtx = out, bz, err == nil, ctx
+				first, firstBytes, firstOK = out, bz, err == nil
 				continue
 			}
 			if (err == nil) != firstOK || !bytes.Equal(bz, firstBytes) {
@@ -380,6 +395,7 @@ func (h *harness) evalCase(defs []specDef, root string, orders [][]int, repeats 
 			}
 		}
 	}
+	firstCtx := ctx
 
 	// clause 1: cycles and unknown imports are rejected
 	if firstOK {
@@ -621,18 +637,21 @@ func mkPlan(tier string) plan {
 	p := plan{tier: tier}
 	p.s1A = orderedLists([]string{"VB", "VC", "VD", unknownName}, 3)
 	p.s1A = append(p.s1A, []string{"VA"}, []string{"VA", "VB"}, []string{"VB", "VA"})
-	p.s1B = subsets([]string{"VA", "VB", "VC", "VD", unknownName})
-	p.s1C = subsets([]string{"VA", "VB", "VC", "VD", unknownName})
-	p.s1D = [][]string{{}, {"VA"}, {unknownName}}
-	p.s1Contents = [4][]int{{0, 2}, {1}, {3, 1}, {4, 1}}
 	p.s2A = orderedLists([]string{"VB", "VC", "VD"}, 3)
 	p.s2B = subsets([]string{"VC", "VD"})
 	p.s2C = subsets([]string{"VD"})
 	if tier == "thorough" {
-		p.s1Contents = [4][]int{{0, 2, 5}, {1, 8}, {3, 1}, {4, 1, 6}}
+		p.s1B = subsets([]string{"VA", "VB", "VC", "VD", unknownName})
+		p.s1C = subsets([]string{"VA", "VB", "VC", "VD", unknownName})
+		p.s1D = [][]string{{}, {"VA"}, {unknownName}}
+		p.s1Contents = [4][]int{{0, 2}, {1}, {3, 1}, {4, 1}}
 		p.s2Lib = []int{0, 1, 2, 3, 4, 5, 6, 7, 8, 9, 10, 11, 12, 13}
 		p.s2RootLib = p.s2Lib
 	} else {
+		p.s1B = subsets([]string{"VA", "VC", "VD", unknownName})
+		p.s1C = subsets([]string{"VA", "VB", "VD", unknownName})
+		p.s1D = [][]string{{}, {"VA"}}
+		p.s1Contents = [4][]int{{0, 2}, {1}, {3}, {4, 1}}
 		p.s2Lib = []int{0, 1, 2, 3, 4, 5, 6, 7}
 		p.s2RootLib = []int{0, 1, 2, 3, 4, 5, 6, 7, 8, 9}
 	}
@@ -640,9 +659,9 @@ func mkPlan(tier string) plan {
 }
 
 // enumerate calls f for every case of shard `shard` of `nshards` (cases are dealt round-robin).
-func (p plan) enumerate(shard, nshards int, f func(sweep int, defs []specDef)) {
+func (p plan) enumerate(shard, nshards int, f func(sweep int, defs []specDef, firstAssignment bool)) {
 	idx := 0
-	emit := func(sweep int, imports [4][]string, contents [4]int) {
+	emit := func(sweep int, imports [4][]string, contents [4]int, firstAssignment bool) {
 		// canonical form: a spec that is not reachable from the root has no imports and no content
 		r := reachable(imports)
 		for i := 1; i < 4; i++ {
@@ -658,7 +677,7 @@ func (p plan) enumerate(shard, nshards int, f func(sweep int, defs []specDef)) {
 		for i := range defs {
 			defs[i] = specDef{Idx: names[i], Imports: imports[i], Colls: library[contents[i]]}
 		}
-		f(sweep, defs)
+		f(sweep, defs, firstAssignment)
 	}
 	// sweep 1: all graph structures (cycles, self imports, unknown imports, diamonds, orders) x few contents
 	for _, ia := range p.s1A {
@@ -680,7 +699,7 @@ func (p plan) enumerate(shard, nshards int, f func(sweep int, defs []specDef)) {
 						for _, cb := range lists[1] {
 							for _, cc := range lists[2] {
 								for _, cd := range lists[3] {
-									emit(1, imports, [4]int{ca, cb, cc, cd})
+									emit(1, imports, [4]int{ca, cb, cc, cd}, ca == lists[0][0] && cb == lists[1][0] && cc == lists[2][0] && cd == lists[3][0])
 								}
 							}
 						}
@@ -705,7 +724,7 @@ func (p plan) enumerate(shard, nshards int, f func(sweep int, defs []specDef)) {
 					for _, cb := range lists[1] {
 						for _, cc := range lists[2] {
 							for _, cd := range lists[3] {
-								emit(2, imports, [4]int{ca, cb, cc, cd})
+								emit(2, imports, [4]int{ca, cb, cc, cd}, false)
 							}
 						}
 					}
@@ -717,23 +736,44 @@ func (p plan) enumerate(shard, nshards int, f func(sweep int, defs []specDef)) {
 
 var allPerms = perms(4)
 
+func keysOf(vs []ev.Violation) string {
+	var k []string
+	for _, v := range vs {
+		k = append(k, v.Key)
+	}
+	sort.Strings(k)
+	return strings.Join(k, ";")
+}
+
 func (h *harness) runShard(p plan, shard, nshards int) (counters, []ev.Violation, []string) {
 	cnt := counters{outcomes: map[string]int64{}}
 	var viol []ev.Violation
 	var samples []string
 	seen := map[string]bool{}
-	p.enumerate(shard, nshards, func(sweep int, defs []specDef) {
+	p.enumerate(shard, nshards, func(sweep int, defs []specDef, firstAssignment bool) {
 		orders := [][]int{{0, 1, 2, 3}, {3, 2, 1, 0}}
-		repeats := 2
-		// the sweep-1 cases with an empty root additionally run under all 24 insertion orders
+		repeats := 1
+		// the first content assignment of every sweep-1 graph runs under all 24 insertion orders
 		if sweep == 1 {
-			if defs[0].Colls == nil || len(defs[0].Colls) == 0 {
+			if firstAssignment {
 				orders = allPerms
 				repeats = 1
 			}
 		}
 		before := cnt.nontrivial
-		for _, v := range h.evalCase(defs, "VA", orders, repeats, &cnt) {
+		vs := h.evalCase(defs, "VA", orders, repeats, &cnt)
+		if len(vs) > 0 {
+			// only reproducible violations are reported: evaluate the case twice more
+			var scratch counters
+			scratch.outcomes = map[string]int64{}
+			for i := 0; i < 2; i++ {
+				if keysOf(h.evalCase(defs, "VA", orders, repeats, &scratch)) != keysOf(vs) {
+					cnt.outcomes["INCONCLUSIVE"]++
+					vs = nil
+				}
+			}
+		}
+		for _, v := range vs {
 			if !seen[v.Key] {
 				seen[v.Key] = true
 				viol = append(viol, v)
@@ -798,11 +838,19 @@ func (s *shardScen) Apply(op int) bfs.Step {
 	obs := fmt.Sprintf("shard=%d;evals=%d;success=%d;rejcu=%d;rejother=%d;accepted=%d;nontrivial=%d;reqs=%d;runs=%d;samples=%s;outcomes=%s",
 		shard, cnt.evals, cnt.success, cnt.rejectedCycleUnknown, cnt.rejectedOther, cnt.accepted, cnt.nontrivial, cnt.reqChecked, cnt.permRuns,
 		strings.Join(samples, "##"), strings.Join(oc, ","))
-	return bfs.Step{Accepted: true, Prune: true, Obs: obs, Viol: viol}
+	// violations travel in the label too: runShard has already re-evaluated every violating case, and the
+	// engine's own reproducibility check would re-run the whole shard five times
+	vb, _ := json.Marshal(viol)
+	obs += ";viol=" + string(vb)
+	return bfs.Step{Accepted: true, Prune: true, Obs: obs}
 }
 
 func parseObs(obs string) map[string]string {
 	m := map[string]string{}
+	if i := strings.Index(obs, ";viol="); i >= 0 {
+		m["viol"] = obs[i+len(";viol="):]
+		obs = obs[:i]
+	}
 	for _, kv := range strings.Split(obs, ";") {
 		if i := strings.IndexByte(kv, '='); i > 0 {
 			m[kv[:i]] = kv[i+1:]
@@ -835,6 +883,11 @@ func init() {
 				continue
 			}
 			shards++
+			var vs []ev.Violation
+			json.Unmarshal([]byte(m["viol"]), &vs)
+			for _, v := range vs {
+				run.Violate(v)
+			}
 			evals += atoi(m["evals"])
 			success += atoi(m["success"])
 			rejcu += atoi(m["rejcu"])
@@ -875,10 +928,35 @@ func init() {
 			run.Set("harness_errors", st.HarnessErrors)
 		}
 		p := mkPlan(tier)
-		run.Set("bound", fmt.Sprintf("root VA + specs VB,VC,VD (+unknown name VU). Sweep 1 (structure): %d ordered root import lists (<=3 of VB,VC,VD,VU; self imports) x %d x %d import subsets of {VA,VB,VC,VD,VU} for VB,VC x %d for VD, contents %v. Sweep 2 (contents): all acyclic closed graphs (%d root import orders x %d x %d) x all assignments of %d library contents (root: %d) — collections {jsonrpc/'' , jsonrpc/'addon'} enabled/disabled, apis {a,b} with CU {0,1,2,max+1}, disabled apis, overrides. Every expansion is run twice under 2 insertion orders (all 24 orders for the sweep-1 cases with an empty root).",
+		run.Set("bound", fmt.Sprintf("root VA + specs VB,VC,VD (+unknown name VU). Sweep 1 (structure): %d ordered root import lists (<=3 of VB,VC,VD,VU; self imports) x %d x %d import subsets of {VA,VB,VC,VD,VU} for VB,VC x %d for VD, contents %v. Sweep 2 (contents): all acyclic closed graphs (%d root import orders x %d x %d) x all assignments of %d library contents (root: %d) — collections {jsonrpc/'' , jsonrpc/'addon'} enabled/disabled, apis {a,b} with CU {0,1,2,max+1}, disabled apis, overrides. Every expansion is run 3 times (DoExpandSpec with step horizon, Keeper.ExpandSpec, Keeper.ExpandSpec after re-inserting the specs in reverse order) (all 24 orders for the first content assignment of every sweep-1 graph).",
 			len(p.s1A), len(p.s1B), len(p.s1C), len(p.s1D), p.s1Contents, len(p.s2A), len(p.s2B), len(p.s2C), len(p.s2Lib), len(p.s2RootLib)))
 		run.Assume("determinism is decided here over repeated runs and spec insertion orders only; the map-iteration-order dimension (Go map rotations inside DoExpandSpec/CombineCollections) is exercised by the map-iteration engine, not by this check")
 		run.Assume("collection-internal inheritance (InheritanceApis), headers, parse directives, extensions and verifications are outside the alphabet")
 		run.Assume("'contains every enabled api of its imports' is read on the expanded imports (transitively); 'overrides' = the spec defines an api of the same name in a collection of the same identity")
 	}})
+}
+
+// DebugCount prints the size of the enumeration (development aid).
+func DebugCount(tier string) {
+	n := map[int]int{}
+	mkPlan(tier).enumerate(0, 1, func(sweep int, defs []specDef, _ bool) { n[sweep]++ })
+	fmt.Println(tier, n)
+}
+
+// DebugShard runs one shard in-process (development aid).
+func DebugShard(tier string, shard, n int) {
+	h := newHarness()
+	if pf := os.Getenv("VERIF_PPROF"); pf != "" {
+		f, _ := os.Create(pf)
+		pprof.StartCPUProfile(f)
+		defer pprof.StopCPUProfile()
+	}
+	t0 := time.Now()
+	defer func() { fmt.Println("shard time", time.Since(t0)) }()
+	cnt, viol, samples := h.runShard(mkPlan(tier), shard, n)
+	fmt.Printf("%+v\n", cnt)
+	for _, v := range viol {
+		fmt.Println("VIOL", v.Key, v.What)
+	}
+	fmt.Println(samples)
 }
